@@ -681,6 +681,16 @@ TRIPS = {
 
 def _written_width(m, offset_name):
   total = nf.rat(E('0'))
+  # the running offset is counted through `offset += e` / `offset = offset + e`; any other way of moving it (the return value of a
+  # helper, slots addressed as offset + k without advancing) is not counted here
+  for st in U.walk_stmts(m.node):
+    for tgt, val, op in U.store_targets(st):
+      if isinstance(tgt, ast.Name) and tgt.id == offset_name and not (op == 'aug:Add' or (op == 'store' and val is not None and (U.const_value(val) == 0 or (
+          isinstance(val, ast.BinOp) and isinstance(val.op, ast.Add) and offset_name in U.names_in(val))))):
+        return None, 'cannot classify: the offset is also moved by `%s`' % norm_text(st)[:60]
+  nested_writes = [f for f in ast.walk(m.node) if isinstance(f, ast.FunctionDef) and f is not m.node]
+  if nested_writes:
+    return None, 'cannot classify: part of the vector is written by the nested helper %s' % nested_writes[0].name
   for st in U.walk_stmts(m.node):
     inc = None
     if isinstance(st, ast.AugAssign) and isinstance(st.op, ast.Add) and norm_text(st.target) == offset_name:
